@@ -73,3 +73,15 @@ Qed.
 (* every variable-owning Expr variant has an arm in shift_vars (generated lists) *)
 Theorem shift_vars_covers_owners : shift_vars_complete = true.
 Proof. vm_compute. reflexivity. Qed.
+
+(* dfs_common pushes the expression of every quantifier that has one, except (recorded finding) the percentage *)
+Theorem quantifier_exprs_traversed :
+  forall v, In v quantifier_expr_variants -> In v quantifier_traversed_variants \/ v = "Percentage"%string.
+Proof.
+  assert (H : quantifier_traversal_ok = true) by (vm_compute; reflexivity).
+  unfold quantifier_traversal_ok, quantifier_untraversed in H. rewrite forallb_forall in H.
+  intros v Hv. destruct (existsb (String.eqb v) quantifier_traversed_variants) eqn:E.
+  - left. apply existsb_exists in E. destruct E as [x [Hx Ex]]. apply String.eqb_eq in Ex. subst. exact Hx.
+  - right. apply String.eqb_eq. apply H. apply filter_In. split; [exact Hv|]. rewrite E. reflexivity.
+Qed.
+
